@@ -21,7 +21,8 @@ structure Inv (v0 : Int) (s : Sys) : Prop where
   ver : s.h.version = v0 + s.flips.length
   flipsVer : ∀ (k : Nat) (p : Nat × Int), s.flips[k]? = some p → p.2 = v0 + (k : Int)
 
-def NoRecover (ops : List Op) : Prop := ∀ o ∈ ops, ∀ t, o ≠ Op.recover t
+/-- histories in which no install is taken back (by crash recovery or by the transaction's own failed phase 2) -/
+def NoRecover (ops : List Op) : Prop := ∀ o ∈ ops, ∀ t, o ≠ Op.recover t ∧ o ≠ Op.restore t
 
 @[simp] theorem setTxn_txns (s : Sys) (t k : Nat) (x : Txn) : (s.setTxn t x).txns k = if k = t then x else s.txns k := rfl
 @[simp] theorem setTxn_h (s : Sys) (t : Nat) (x : Txn) : (s.setTxn t x).h = s.h := rfl
@@ -33,9 +34,10 @@ theorem held_lock {s : Sys} {t : Nat} (h : held s t true = true) : s.lock = some
   simp only [Bool.not_true, Bool.false_or, Bool.and_eq_true, Bool.not_eq_true', beq_iff_eq] at h
   exact ⟨h.2, h.1⟩
 
-theorem inv_step (v0 : Int) (s : Sys) (o : Op) (hno : ∀ t, o ≠ Op.recover t) (inv : Inv v0 s) : Inv v0 (step true s o) := by
+theorem inv_step (v0 : Int) (s : Sys) (o : Op) (hno : ∀ t, o ≠ Op.recover t ∧ o ≠ Op.restore t) (inv : Inv v0 s) : Inv v0 (step true s o) := by
   cases o with
-  | recover t => exact absurd rfl (hno t)
+  | recover t => exact absurd rfl (hno t).1
+  | restore t => exact absurd rfl (hno t).2
   | crash t =>
     simp only [step]
     refine ⟨?_, ?_, ?_, ?_, inv.ver, inv.flipsVer⟩
